@@ -421,4 +421,10 @@ def run(repo, tier):
     res.exhaustive_rules = ['L1 over (public entry x lazyproperty) pairs of every lazy class', 'L4', 'ECALL over all call-like entries']
     from .common import run_class_mutable
     run_class_mutable(repo, res, {m for m in repo.modules if '.tests' not in m})
+    from .common import run_no_cached_property, run_no_overwrite_input
+    run_no_cached_property(repo, res, {m for m in repo.modules if '.tests' not in m and 'extern' not in m})
+    run_no_overwrite_input(repo, res, {m for m in repo.modules if '.tests' not in m and 'extern' not in m})
+    from .common import run_cache_pure
+    from .C08 import CACHE_PURE_OK
+    run_cache_pure(repo, res, modules={m for m in repo.modules if '.tests' not in m}, exempt=CACHE_PURE_OK)
     return res
